@@ -34,6 +34,7 @@ func init() {
 	share("C16", &RuleDoc{Name: "R-SPLIT-VISITS-ALL", Text: "initMatchers visits every element of the ';'-separated right: the scanning loop is left only through its own continuation test (no break/return inside).", Run: ruleSplitVisitsAll})
 	share("C16", &RuleDoc{Name: "R-PARTCOUNT-EVERY-SEPARATOR", Text: "partCount counts every '/' it finds (the increment is unconditional on the found edge), so the segment-count guard and the segment scanner agree on how many segments a path has.", Run: rulePartCountEverySeparator})
 	share("C17", &RuleDoc{Name: "R-SAVE-UPDATE-COPIES", Text: "routetable.Save copies the new route's fields into the existing entry on every path of the update branch (a second save before a flush is not dropped).", Run: ruleSaveUpdateCopies})
+	share("C18", &RuleDoc{Name: "R-SHUTDOWN-FLUSHES", Text: "Service.Close flushes the route table and the user table on every path, and the periodic storage task flushes both: an edit made since the last periodic flush is on disk after an orderly shutdown.", Run: ruleShutdownFlushes})
 	share("C19", &RuleDoc{Name: "R-SNIFF-ERR-WITH-DATA", Text: "While sniffing, the source error is remembered only together with bytes that were buffered (n > 0): a sniff-deadline timeout with no data is never replayed to the service with the prefix.", Run: ruleSniffErrWithData})
 	share("C20", &RuleDoc{Name: "R-PARSE-ERR-CHECKED", Text: "requestSDP tests the error of sdp.ParseString before the parsed session is used (go-sdp returns a nil session on error).", Run: ruleParseErrChecked})
 	if p03 := properties["C03"]; p03 != nil {
@@ -68,6 +69,8 @@ func init() {
 			Old: "\t\tn++\n\t\ts = s[i+1:]", New: "\t\tif i > 0 {\n\t\t\tn++\n\t\t}\n\t\ts = s[i+1:]", Expect: "R-PARTCOUNT-EVERY-SEPARATOR"},
 		&Mutant{Prop: "C17", Name: "c17-save-update-dropped", File: "provider/route/routetable.go",
 			Old: "\t\tr.CopyFrom(newr)\n\n\t\tsave := true", New: "\t\tfor _, r2 := range t.saves {\n\t\t\tif r.Pattern == r2.Pattern {\n\t\t\t\treturn nil\n\t\t\t}\n\t\t}\n\t\tr.CopyFrom(newr)\n\n\t\tsave := true", Expect: "R-SAVE-UPDATE-COPIES"},
+		&Mutant{Prop: "C18", Name: "c18-close-skips-user-flush", File: "service/service.go",
+			Old: "\t// 退出前确保最新数据被存储\n\troute.Flush()\n\tauth.Flush()", New: "\t// 退出前确保最新数据被存储\n\troute.Flush()", Expect: "R-SHUTDOWN-FLUSHES"},
 		&Mutant{Prop: "C19", Name: "c19-sniff-timeout-remembered", File: "network/socket/listener/listener.go",
 			Old: "\tif sn > 0 && s.sniffing {\n\t\ts.lastErr = sErr\n\t\tif wn, wErr := s.buffer.Write(p[:sn]); wErr != nil {\n\t\t\treturn wn, wErr\n\t\t}\n\t}", New: "\tif s.sniffing {\n\t\ts.lastErr = sErr\n\t\tif sn > 0 {\n\t\t\tif wn, wErr := s.buffer.Write(p[:sn]); wErr != nil {\n\t\t\t\treturn wn, wErr\n\t\t\t}\n\t\t}\n\t}", Expect: "R-SNIFF-ERR-WITH-DATA"},
 		&Mutant{Prop: "C20", Name: "c20-sdp-parse-error-unchecked", File: "service/rtsp/pull_client.go",
@@ -963,4 +966,69 @@ func ruleRetryOnEvery401(c *Ctx) {
 		}
 	})
 	c.Floor("authenticated retries in requestWithResponse", n, 2)
+}
+
+// ------------------------------------------------------------ R-SHUTDOWN-FLUSHES
+
+func ruleShutdownFlushes(c *Ctx) {
+	p := c.P
+	rf := p.Func("provider/route", "Flush")
+	af := p.Func("provider/auth", "Flush")
+	cl := p.Func("service", "(*Service).Close")
+	ns := p.Func("service", "NewService")
+	if rf == nil || af == nil || cl == nil || ns == nil {
+		c.Lost("service.Close/NewService, route.Flush, auth.Flush", "not found")
+		return
+	}
+	c.touched(fname(cl))
+	type st struct{ R, A bool }
+	mustBoth := func(fn *ssa.Function, key, what string) {
+		res := RunPath(&PathRule[st]{Fn: fn, Init: []st{{}},
+			Transfer: func(s st, ins ssa.Instruction) []st {
+				if callsFunc(ins, rf) {
+					s.R = true
+					return []st{s}
+				}
+				if callsFunc(ins, af) {
+					s.A = true
+					return []st{s}
+				}
+				return nil
+			}})
+		c.paths += res.N
+		ok := true
+		for ret, sts := range res.Exits() {
+			for _, s := range sts {
+				if !s.R || !s.A {
+					ok = false
+					c.Bad(key, p.InstrPos(ret), fmt.Sprintf("%s returns on a path without flushing the route table (%v) / the user table (%v): edits made since the last periodic flush are lost at shutdown", what, s.R, s.A))
+				}
+			}
+		}
+		if ok {
+			c.OK(key, p.Pos(fn.Pos()), "flushes both tables on every path")
+		}
+	}
+	mustBoth(cl, "shutdown-flushes@"+fname(cl), "Service.Close")
+	// the periodic task: a closure of NewService handed to the scheduler that calls both
+	found := false
+	for _, an := range ns.AnonFuncs {
+		r, a := false, false
+		instrs(an, func(ins ssa.Instruction) {
+			if callsFunc(ins, rf) {
+				r = true
+			}
+			if callsFunc(ins, af) {
+				a = true
+			}
+		})
+		if r || a {
+			found = true
+			c.touched(fname(an))
+			mustBoth(an, "periodic-flushes@"+fname(ns), "the periodic storage task")
+		}
+	}
+	if !found {
+		c.Bad("periodic-flushes@"+fname(ns), p.Pos(ns.Pos()), "NewService schedules no task that flushes the tables")
+	}
 }
